@@ -54,7 +54,51 @@ type Space struct {
 	// Build returns the universe for the picks, or ok=false if the picks are
 	// pointless (a deviation on a version no requirement path from the root reaches).
 	Build func(picks []Pick) (u Universe, ok bool)
+	// Describe names a (slot, option): kind is req, decor, ver, pkg or mgmt; dep is the dependent
+	// "pkg@ver" (req/decor), target the package concerned, option the requirement text or decoration.
+	Describe func(slot, opt int) (kind, dep, target, option string)
 }
+
+// EnumerateFocused is Enumerate restricted to the (slot, option) pairs keep accepts: a deeper
+// bound over the part of the space that exercises one mechanism.
+func (sp *Space) EnumerateFocused(max int, keep func(kind, dep, target, option string) bool, f func(picks []Pick)) {
+	allowed := make([][]int, len(sp.Slots))
+	for s := range sp.Slots {
+		for o := 0; o < sp.Slots[s].Options; o++ {
+			if keep(sp.Describe(s, o)) {
+				allowed[s] = append(allowed[s], o)
+			}
+		}
+	}
+	picks := make([]Pick, 0, max)
+	picked := make([]bool, len(sp.Slots))
+	var rec func(start int)
+	rec = func(start int) {
+		f(picks)
+		if len(picks) == max {
+			return
+		}
+		for s := start; s < len(sp.Slots); s++ {
+			if len(allowed[s]) == 0 {
+				continue
+			}
+			if r := sp.Slots[s].Requires; r >= 0 && !picked[r] {
+				continue
+			}
+			picked[s] = true
+			for _, o := range allowed[s] {
+				picks = append(picks, Pick{s, o})
+				rec(s + 1)
+				picks = picks[:len(picks)-1]
+			}
+			picked[s] = false
+		}
+	}
+	rec(0)
+}
+
+var _ = 0
+
 
 // reachablePkgs computes package-level reachability from the root through requirement edges.
 func reachablePkgs(root string, edges [][2]string) map[string]bool {
@@ -138,6 +182,26 @@ func newSpace(def sysDef, base string, tmpl []tmplReq) *Space {
 	mgmtBase := len(sp.Slots)
 	for range def.targets {
 		sp.Slots = append(sp.Slots, Slot{Options: len(def.mgmt), Requires: -1})
+	}
+	sp.Describe = func(slot, opt int) (kind, dep, target, option string) {
+		switch {
+		case slot < nReq:
+			rs := reqSlots[slot]
+			o := "<remove>"
+			if opt < len(def.reqs) {
+				o = def.reqs[opt]
+			}
+			return "req", def.vers[rs.dep].Pkg + "@" + def.vers[rs.dep].Ver, rs.target, o
+		case slot < verBase:
+			rs := reqSlots[slot-nReq]
+			return "decor", def.vers[rs.dep].Pkg + "@" + def.vers[rs.dep].Ver, rs.target, def.decor[opt]
+		case slot < pkgBase:
+			v := def.vers[1+slot-verBase]
+			return "ver", v.Pkg + "@" + v.Ver, v.Pkg, def.verDecor[opt]
+		case slot < mgmtBase:
+			return "pkg", "", def.targets[slot-pkgBase], def.pkgDecor[opt]
+		}
+		return "mgmt", def.vers[0].Pkg + "@" + def.vers[0].Ver, def.targets[slot-mgmtBase], def.mgmt[opt]
 	}
 	sp.Build = func(picks []Pick) (Universe, bool) {
 		u := Universe{Sys: def.name, Vers: make([]Ver, len(def.vers))}
@@ -375,7 +439,17 @@ func MavenSpaces() []*Space {
 		{vi("g:a", "2"), Req{Pkg: "g:b", Ver: "1"}},
 		{vi("g:c", "1"), Req{Pkg: "g:a", Ver: "2"}},
 	}
-	return []*Space{newSpace(d, "empty", nil), newSpace(d, "chain", chain)}
+	// tree: r -> a; a@1 -> b, c; b@1 -> c; c@1 -> a 2 (a parent with two children, one of which is also reached
+	// through the other): the shape on which exclusions inherited along one path must not leak to another
+	tree := []tmplReq{
+		{vi("g:r", "1"), Req{Pkg: "g:a", Ver: "1"}},
+		{vi("g:a", "1"), Req{Pkg: "g:b", Ver: "1"}},
+		{vi("g:a", "1"), Req{Pkg: "g:c", Ver: "1"}},
+		{vi("g:b", "1"), Req{Pkg: "g:c", Ver: "1"}},
+		{vi("g:c", "1"), Req{Pkg: "g:a", Ver: "2"}},
+		{vi("g:a", "2"), Req{Pkg: "g:b", Ver: "2"}},
+	}
+	return []*Space{newSpace(d, "empty", nil), newSpace(d, "chain", chain), newSpace(d, "tree", tree)}
 }
 
 // ---------------- PyPI ----------------
